@@ -447,12 +447,14 @@ class LDMService:
         ----------
         subscription_id : int
         """
+        # Looking the subscription up and removing it is one atomic step (the lock is re-entrant), so that of two
+        # concurrent requests to delete the same subscription only one reports success.
         with self._lock:
             subscriptions = self.subscriptions.copy()
-        to_remove = set()
-        for subscription in subscriptions:
-            if hash(subscription.subscription_request) == subscription_id:
-                to_remove.add(subscription)
-        for subscription in to_remove:
-            self.remove_subscription(subscription)
+            to_remove = set()
+            for subscription in subscriptions:
+                if hash(subscription.subscription_request) == subscription_id:
+                    to_remove.add(subscription)
+            for subscription in to_remove:
+                self.remove_subscription(subscription)
         return bool(to_remove)
